@@ -103,7 +103,37 @@ def job(cfgs):
     return n, reads, res, states
 
 
+def job_dyn(j):
+    """capabilities changing between calls (fallback paths taken on later polls)"""
+    import itertools
+    from .c15 import run_dynamic, CHANGES
+    cfg, depth = j
+    out = {}
+    n = 0
+    for k in range(1, depth + 1):
+        for changes in itertools.product(CHANGES, repeat=k):
+            _, _, shorts = run_dynamic(cfg, changes, probe_reads=True)
+            n += 1
+            for sid, step in shorts:
+                key = f'reads-inside-answer/{cfg["family"]}/{sid}'
+                out.setdefault(key, []).append(dict(key=key, clause='reads-inside-answer',
+                                                    replay=dict(cfg=cfg, transport='udp', changes=list(changes)),
+                                                    detail=dict(cause=f'{sid}: short read on the poll after {step}', changes=list(changes))))
+    res = []
+    for key, lst in out.items():
+        lst.sort(key=lambda v: len(v['replay']['changes']))
+        lst[0]['n'] = len(lst)
+        res.append(lst[0])
+    return n, res
+
+
 def run(tier, seed, rep):
+    dyn_cfgs = [dict(family='ET', tag=t, power=p, refused=(), battery_mode=2)
+                for t, p in (('ETU', 3000), ('ETU', 25000), ('ETT', 10000), ('EHU', 5000))]
+    ndyn = 0
+    for n, res in pmap(job_dyn, [(c, 2) for c in dyn_cfgs]):
+        ndyn += n
+        rep.add_many(res)
     cases = [(c, 'udp') for c in et_configs(tier, seed)] + [(c, 'udp') for c in dt_configs(tier, seed)]
     cases += [(c, 'tcp') for i, c in enumerate(et_configs('quick', seed)) if i % 16 == 0]
     k = 64
@@ -115,7 +145,7 @@ def run(tier, seed, rep):
         states |= sts
         rep.add_many(res)
     cov = dict(states=len(states), transitions=reads, executions=total, traces_validated_against_impl=total,
-               configurations=total, instrumented_reads=reads, exhaustive=True,
+               configurations=total, dynamic_histories=ndyn, instrumented_reads=reads, exhaustive=True,
                bound='every model configuration of C15 (tags x rated power x refused subsets x battery) x every sensor of '
                      'every block; each ProtocolResponse.read is observed (position, requested, returned) and cross-checked '
                      'with the static sensor-span-versus-request-window computation',
@@ -130,5 +160,9 @@ def run(tier, seed, rep):
 def replay(r):
     cfg = r['cfg']
     cfg['refused'] = tuple(cfg['refused'])
+    if 'changes' in r:
+        from .c15 import run_dynamic
+        _, outs, shorts = run_dynamic(cfg, r['changes'], probe_reads=True)
+        return dict(outcomes=outs, violations=sorted({x[0] for x in shorts}))
     vio, nr, oc = run_config(cfg, r['transport'])
     return dict(outcome=oc, reads=nr, violations=vio)
